@@ -35,7 +35,7 @@ PLANETS = {'jup': (1.0, 1.0), 'neptune': (0.054, 0.35), 'heavy': (10.0, 1.2), 'e
 TLETTERS = ['iso1500', 'dec', 'inv', 'cold', 'int-dec']     # int-dec: whole numbers handed over as Python ints
 MULETTERS = ['const', 'varying', 'heavy']
 PSOURCES = ['simple', 'array-grid', 'array-mild', 'array-wild', 'array-reverse', 'file-pa', 'file-bar-col1',
-            'file-reverse', 'file-bar-reverse']
+            'file-reverse', 'file-bar-reverse', 'array-edge']
 MODELS = ['transmission', 'emission']
 PER_LAYER = ['temp_profile', 'density_profile', 'scaleheight_profile', 'altitude_profile',
              'gravity_profile', 'pressure_profile', 'mu_profile']
@@ -63,6 +63,13 @@ def tabulated_pressures(n, prange, letter):
     if letter in ('array-grid', 'array-reverse', 'file-pa', 'file-bar-col1', 'file-reverse', 'file-bar-reverse'):
         return grid
     lg = np.log10(grid)
+    if letter == 'array-edge':
+        # evenly spaced in log P except for the two outermost steps, which are four times smaller (a finely sampled
+        # top and bottom; beyond a factor five the levels the unchanged derivation gives are no longer ordered)
+        steps = np.ones(n - 1)
+        steps[0] = steps[-1] = 0.25
+        steps = steps / steps.sum() * (lg[0] - lg[-1])
+        return 10 ** (lg[0] - np.concatenate([[0.0], np.cumsum(steps)]))
     r = fx.rng('c11', letter, n)
     if letter == 'array-mild':      # consecutive log-steps differ by at most a factor ~2
         steps = r.uniform(1.0, 2.0, size=n - 1)
